@@ -789,3 +789,34 @@ def concat_parts(e):
     if e[0] == "const" and e[1] == "str":
         return [("lit", e[2])]
     return None
+
+
+def iter_element(prog, it, depth=5):
+    """the value an iterator expression yields per item, in terms of ELEM (an item of the underlying collection):
+    `xs.iter()` -> ELEM;  `src.map(closure)` -> the closure's return with its argument := element of src;  a call of a
+    crate function that returns an iterator is looked into.  None when the chain contains anything else (filter, skip, zip ..):
+    callers that need "every item, transformed" must not accept those."""
+    from .mirlib import Expr
+    it = strip(it)
+    if depth <= 0 or it[0] != "call":
+        return None
+    n = it[1]
+    if re.search(r"<impl \[T\]>::iter$|IntoIterator>::into_iter$|Vec::<T, A>::iter$|Deref>::deref$|::values$|::keys$", n) and it[2]:
+        inner = strip(it[2][0])
+        if inner[0] == "call" and re.search(r"<impl \[T\]>::iter$|IntoIterator>::into_iter$|Deref>::deref$|Iterator>?::map$", inner[1]):
+            return iter_element(prog, inner, depth - 1)
+        return ELEM
+    if re.search(r"Iterator>?::map$", n) and len(it[2]) == 2:
+        src = iter_element(prog, it[2][0], depth - 1)
+        cl, caps = closure_of(strip(it[2][1]))
+        if src is None or not cl or cl not in prog.bodies:
+            return None
+        rets = Expr(prog, cl).returns()
+        if len(rets) != 1:
+            return None
+        return strip(simplify(subst_closure(rets[0], caps, (src,))))
+    if n in prog.bodies and "{closure" not in n and not it[2]:
+        rets = Expr(prog, n).returns()
+        if len(rets) == 1:
+            return iter_element(prog, rets[0], depth - 1)
+    return None
